@@ -350,15 +350,16 @@ def run(eng, run):
     from sa.anchors import verify as _verify_anchor_names
     _verify_anchor_names(eng, run)
     run.not_decided += NOT_DECIDED
-    check_lock_with_timeout(eng, run)
-    check_held(eng, run)
-    check_flag_under_lock(eng, run)
-    check_guards(eng, run)
-    check_tls(eng, run)
+    run.attempt(check_lock_with_timeout, eng, run)
+    run.attempt(check_held, eng, run)
+    run.attempt(check_flag_under_lock, eng, run)
+    run.attempt(check_guards, eng, run)
+    run.attempt(check_tls, eng, run)
     from rules import c04, c08
-    c08.check_remove_after_write(eng, run, rule="C12.tls")
-    c04.check_prog(eng, RuleAlias(run, "C12.span"))
-    check_fifo(eng, run)
+    run.attempt(c08.check_remove_after_write, eng, run, rule="C12.tls")
+    run.attempt(c04.check_prog, eng, RuleAlias(run, "C12.span"))
+    run.attempt(check_fifo, eng, run)
+    run.end_of_rules()
 
 
 # ---------------------------------------------------------------------------------------------- self-test corpus
